@@ -45,7 +45,22 @@ fn c12_mask_shift_entries_lie_inside_the_slot() {
             code.push(0x1c);
             code.push(0x7f);
             code.extend(mask.to_be_bytes());
-            code.extend([0x16, 0x60, 0x01, 0x55, 0x00]);
+            code.push(0x16);
+            // what the field is then used for: plain copy; re-positioned by * 2^k (packed write); as an address (BALANCE);
+            // packed together with a second field
+            let variant = (shift as usize / 8 + mask_pos as usize / 8) % 4;
+            match variant {
+                0 => code.extend([0x60, 0x01, 0x55, 0x00]),
+                1 => {
+                    // * 2^k (the compiler's way of positioning a field), alone or OR-ed with a second masked field
+                    let k = [8u32, 64, 128, 200][(mask_len as usize / 8 + shift as usize / 8) % 4];
+                    code.push(0x7f); code.extend((U256::ONE << k).to_be_bytes()); code.push(0x02);
+                    if shift % 16 == 0 { code.extend([0x60, 0x20, 0x35, 0x67, 0xff, 0xff, 0xff, 0xff, 0xff, 0xff, 0xff, 0xff, 0x16, 0x17]); }
+                    code.extend([0x60, 0x01, 0x55, 0x00]);
+                }
+                2 => code.extend([0x80, 0x31, 0x50, 0x60, 0x01, 0x55, 0x00]),
+                _ => { code.extend([0x60, 0x40, 0x1b, 0x60, 0x20, 0x35, 0x67, 0xff, 0xff, 0xff, 0xff, 0xff, 0xff, 0xff, 0xff, 0x16, 0x17, 0x60, 0x01, 0x55, 0x00]); }
+            }
             if let Some(slots) = analyze_layout(&code) {
                 for (idx, off, width) in slots {
                     if off >= 256 { witness("C12", "arith.sub_word.region_inside_slot", format!("(sload(0) >> {shift}) & (mask at bit {mask_pos} len {mask_len}): {code:02x?}"), format!("entry slot {idx} offset {off}"), "offset < 256".into()); }
